@@ -367,6 +367,106 @@ def rule_b(ctx):
             r = F.root_of(c.body)
             ctx.check(ok, 'b', 'unordered_clamp_bounds', r, c.where(), why, 'clamp(lo, hi) with bounds not provably ordered (panics when lo > hi): lo=%s hi=%s' % (D.render(lo)[:120], D.render(hi)[:120]))
     ctx.floor('b', 'clamp_sites', n, 3)
+    peer_threshold_subtractions_ordered(ctx, 'b', 'peer_threshold_subtraction_ordered')
+
+
+# ---- ordered operands of subtractions over peer-copied thresholds ----------------------------------------------
+
+_PEER_VALUE_TYPES = ('frame::',)          # decoded frames: every integer in them is the peer's choice (any varint)
+_THRESHOLD_ADTS = ('spaces::PendingAcks',)
+_TRANSPARENT_ARITH = _ADD + _SUB + ('min', 'max', 'wrapping_mul', 'saturating_mul', 'into_inner')
+
+
+def _peer_fed_fields(ctx, adt):
+    """fields of `adt` that receive a value taken from a parameter whose type is a decoded frame (any store, any function)"""
+    F = ctx.facts
+    out = []
+    for v in F.adt(adt)['variants']:
+        for f in v['fields']:
+            for w, d in store_values(ctx, adt, f[0]):
+                tys = w.body.locals
+                if any(x[0] == 'param' and x[1] < len(tys) and any(t in (tys[x[1]][0] or '') for t in _PEER_VALUE_TYPES) for x in walk(d)):
+                    out.append(f[0])
+                    break
+    return out
+
+
+def _threshold_dep(b, d, adt, fields):
+    """d is computed by plain arithmetic from a peer-fed field of the receiver (`self.f`, f in fields): the field itself, or an
+    operator / saturating / wrapping / min / max / cast expression over such a value.  Results of other calls are values in
+    their own right (their range is that callee's contract, not this subtraction's)."""
+    if d[0] == 'field':
+        base = d[1]
+        return d[2] in fields and base[0] == 'param' and base[1] < len(b.locals) and adt.split('::')[-1] in (b.locals[base[1]][0] or '')
+    if d[0] == 'bin':
+        return _threshold_dep(b, d[2], adt, fields) or _threshold_dep(b, d[3], adt, fields)
+    if d[0] == 'un':
+        return _threshold_dep(b, d[2], adt, fields)
+    if d[0] == 'phi':
+        return any(_threshold_dep(b, x, adt, fields) for x in d[1])
+    if d[0] == 'call' and d[1].rsplit('::', 1)[-1] in _TRANSPARENT_ARITH:
+        return any(_threshold_dep(b, a, adt, fields) for a in d[3])
+    return False
+
+
+def _panicking_subs(F, b):
+    """(block, line, minuend, subtrahend) of every subtraction of b that can underflow: operator `-` (overflow-checked in debug,
+    wrapping in release) and wrapping_sub / unchecked_sub calls.  checked_sub / saturating_sub have a defined result."""
+    d = describer(F, b)
+    live = b.live_blocks()
+    out = []
+    for i, blk in enumerate(b.blocks):
+        if i not in live or blk['c']:
+            continue
+        for j, st in enumerate(blk['s']):
+            if st[0] == '=' and st[2][0] == 'bin' and D.BINOPS.get(st[2][1]) == 'Sub':
+                out.append((i, st[-1], d.operand(st[2][2], i, j, 0), d.operand(st[2][3], i, j, 0)))
+    for c in b.calls():
+        if c.bb in live and short(c.f or '').rsplit('::', 1)[-1] in ('wrapping_sub', 'unchecked_sub') and len(c.args) == 2:
+            out.append((c.bb, c.line, arg_desc(F, c, 0), arg_desc(F, c, 1)))
+    return out
+
+
+def peer_threshold_subtractions_ordered(ctx, rule, instance):
+    """PendingAcks copies ack_eliciting_threshold / reordering_threshold verbatim from the peer's ACK_FREQUENCY frame (any
+    62-bit value).  Every subtraction `x - y` in a PendingAcks method in which x or y is computed from such a field must be
+    ordered for THESE operands: a dominating branch edge on which `y <= x` (or `y < x`) holds for exactly the two operand
+    values, the subtraction being unreachable from the branch's other edges.  A guard that compares the threshold with some
+    other packet number orders nothing: the peer picks the threshold between the two and the connection task panics (debug) or
+    the loss-reporting interval wraps (release)."""
+    F = ctx.facts
+    n_fields = 0
+    n = 0
+    for adt in _THRESHOLD_ADTS:
+        fields = _peer_fed_fields(ctx, adt)
+        n_fields += len(fields)
+        for b in F.code_bodies('quinn_proto'):
+            r = F.root_of(b)
+            if not path_matches(r.self_ty or '', adt):
+                continue
+            subs = [s for s in _panicking_subs(F, b) if _threshold_dep(b, s[2], adt, fields) or _threshold_dep(b, s[3], adt, fields)]
+            if not subs:
+                continue
+            brs = branches(F, b)
+            for bb, line, x, y in subs:
+                n += 1
+                covered = False
+                for br in brs:
+                    if not b.dominates(br.bb, bb):
+                        continue
+                    for truth in (True, False):
+                        rel = relation_on(br.desc, truth)
+                        if not (rel and rel[0] in ('Le', 'Lt') and rel[1] == y and rel[2] == x):
+                            continue
+                        tgt = br.target(1 if truth else 0)
+                        other = [t for _, t in br.edges if t != tgt]
+                        if tgt is not None and other and not any(bb in b.reachable_from(t, avoid=[br.bb]) for t in other):
+                            covered = True
+                ctx.check(covered, rule, instance, r, b.where(line), 'subtraction over a peer-copied threshold only on the edge `subtrahend <= minuend` of a dominating test of the same two values',
+                          'a subtraction whose operand comes from the peer\'s ACK_FREQUENCY frame is not ordered by a dominating comparison of its own operands: %s - %s underflows for a threshold chosen by the peer (panic in debug builds, wrapped interval in release)'
+                          % (D.render(x)[:100], D.render(y)[:100]))
+    ctx.floor(rule, instance + '_peer_fed_fields', n_fields, 2)
+    ctx.info(rule, '%d subtraction(s) over peer-copied ACK_FREQUENCY thresholds' % n)
 
 
 def ordered(lo, hi):
